@@ -27,6 +27,9 @@ type GenOpts struct {
 	NoUnions bool
 	// RootTypename allows __typename directly on the query root.
 	RootTypename bool
+	// UnionSelfFragment allows fragments on the union type itself inside a
+	// union-typed selection set (`... on Thing { ... on Node { id } }`).
+	UnionSelfFragment bool
 	// PreferObjectDup makes duplicated selections favour object fields (whose
 	// sub-selections then have to be merged).
 	PreferObjectDup bool
@@ -293,6 +296,14 @@ func (g *generator) set(typ string, depth int) *SelSet {
 		if len(s.Items) == 0 {
 			m := t.Members[g.r.Intn(len(t.Members))]
 			s.Items = append(s.Items, SelItem{Frag: &Frag{On: m, Set: g.set(m, depth)}})
+		}
+		// a fragment whose type condition is the union itself applies to every member
+		if g.o.UnionSelfFragment && depth > 1 && g.r.Intn(4) == 0 {
+			if g.r.Intn(3) == 0 {
+				s.Items = append(s.Items, SelItem{Frag: g.namedFrag(typ, depth-1)})
+			} else {
+				s.Items = append(s.Items, SelItem{Frag: &Frag{On: typ, Set: g.set(typ, depth-1), Dirs: g.dirs()}})
+			}
 		}
 		g.r.Shuffle(len(s.Items), func(i, j int) {
 			if g.o.KeepPlainLeaf && (i == 0 || j == 0) {
